@@ -191,6 +191,8 @@ def churn(R):
         if wd != wd0:
             import shutil
             shutil.rmtree(wd, ignore_errors=True)
+    if len(reports) != 4:
+        reports.append(dict(result="engine-died", detail="the churn engine produced %d of 4 reports (rc %s): %s" % (len(reports), rc, (se or "")[-400:])))
     bad = [r for r in reports if r.get("result") != "ok"]
     R.oblige("churn: the server process survives %d short-lived connections (gone before / during / after a command, orderly and reset) and keeps serving"
              % sum(r.get("connections", 0) for r in reports), "exploration", len(reports) == 4 and not bad, "; ".join(r.get("detail", "")[:200] for r in bad))
